@@ -12,6 +12,9 @@ pub struct Case {
     pub calls: u32,
     /// sinc only: (after this many calls, new size = 1 + frac*(chunk-1)/65535), applied cyclically
     pub schedule: Vec<(u16, u16)>,
+    /// every k-th call is made with all channels masked off (0: never); its returned counts enter the totals
+    #[serde(default)]
+    pub masked_every: u16,
 }
 
 pub struct C07;
@@ -66,6 +69,9 @@ fn run_t<T: SampleX>(c0: &Case) -> Outcome {
     if cfg.chunk == 1 {
         o.class("chunk=1");
     }
+    if c0.masked_every > 0 {
+        o.class("with all-masked calls");
+    }
     for call in 0..c0.calls {
         if kind.is_sinc() && !c0.schedule.is_empty() {
             let (after, frac) = c0.schedule[sched_i % c0.schedule.len()];
@@ -83,7 +89,9 @@ fn run_t<T: SampleX>(c0: &Case) -> Outcome {
         if outbuf[0].len() < on {
             outbuf[0].resize(on, T::of64(0.0));
         }
-        let (ni, no) = match res.pib(&inbuf, &mut outbuf, None) {
+        let all_off = [false];
+        let mask: Option<&[bool]> = if c0.masked_every > 0 && (call + 1) % c0.masked_every as u32 == 0 { Some(&all_off) } else { None };
+        let (ni, no) = match res.pib(&inbuf, &mut outbuf, mask) {
             Ok(x) => x,
             Err(e) => {
                 o.fail(format!("err:{}", kind.name()), format!("call {} failed: {}", call, e));
@@ -150,8 +158,8 @@ impl Property for C07 {
         sp.probes = false;
         let sched = prop_oneof![2 => Just(vec![]), 1 => proptest::collection::vec((0u16..50, any::<u16>()), 1..6)];
         let calls = if th { prop_oneof![3 => 1000u32..20_000, 1 => 100_000u32..1_000_000].boxed() } else { prop_oneof![1 => 200u32..1000, 3 => 1000u32..5000].boxed() };
-        (config_strategy(sp), calls, sched, any::<bool>())
-            .prop_map(move |(mut cfg, calls, schedule, tiny)| {
+        (config_strategy(sp), calls, sched, any::<bool>(), prop_oneof![3 => Just(0u16), 1 => 1u16..=7])
+            .prop_map(move |(mut cfg, calls, schedule, tiny, masked_every)| {
                 cfg.max_rel = 1.0;
                 cfg.channels = 1;
                 if tiny {
@@ -169,7 +177,7 @@ impl Property for C07 {
                 while call_cost(&cfg) * calls as f64 > budget && calls > 1000 {
                     calls /= 2;
                 }
-                Case { cfg, calls, schedule }
+                Case { cfg, calls, schedule, masked_every }
             })
             .boxed()
     }
